@@ -504,3 +504,17 @@ func init() {
 	intrinsics["os.RemoveAll"] = func(p *Path, th *Thread, fr *Frame, args []Value) Value { return Iface{} }
 	intrinsics["os.MkdirAll"] = func(p *Path, th *Thread, fr *Frame, args []Value) Value { return Iface{} }
 }
+
+func init() {
+	intrinsics["os.CreateTemp"] = func(p *Path, th *Thread, fr *Frame, args []Value) Value {
+		cell := new(Value)
+		*cell = p.e.zero(p.tt, p.e.pkgs["os"].Type("File").Type())
+		return Tuple{cell, Iface{}}
+	}
+	intrinsics["encoding/json.NewEncoder"] = func(p *Path, th *Thread, fr *Frame, args []Value) Value {
+		cell := new(Value)
+		*cell = p.e.zero(p.tt, p.e.pkgs["encoding/json"].Type("Encoder").Type())
+		return cell
+	}
+	intrinsics["(*encoding/json.Encoder).Encode"] = func(p *Path, th *Thread, fr *Frame, args []Value) Value { return Iface{} }
+}
